@@ -69,6 +69,12 @@ add('C19', 'model_checking',
     "relational symbolic execution (three runs of the real pipeline per path on shared symbolic statistics), z3 term equality",
     'DESIGN.md 3/C19')
 
+add('C04', 'model_checking',
+    "The real ParamsGenerator (real recipe resolution, every real materialize_* function, bias and same-scale logic) runs bit-precisely on SYMBOLIC statistics and SYMBOLIC constant contents for every config the real policy accepts per op kind (280 op x config cases) plus two/three-op propagation graphs; every emitted UniformQuantParams is compared as a z3 term with an independent derivation from the TFLite spec (min/max formulas on the tensor's effective statistics incl. several-hop same-scale propagation and fixed-range outputs, bias = input scale x weight scale per channel with zero point 0 and 32/64 bits, per-channel only on the weight operand and on the dimension the kernels expect). Agreement for ALL float32 statistics/constants is decided by the solver; a disagreement yields concrete float32 inputs, replayed on the real code with real NumPy.",
+    "Assumes: tensors <= 8 elements / <= 3 channels; float32 finite statistics; range facts of the formulas (positive finite scale, zero point in range, casts in range) are C17; that calibration delivers the true statistics is FFI (C09 covers the Python side). A random-value pre-check is used only to find counterexamples faster; 'holds' is always the solver's unsat.",
+    "bit-precise symbolic execution of the real ParamsGenerator (z3 QF_FP/QF_BV term equality against a spec-derived reference), concrete replay",
+    'DESIGN.md 3/C04')
+
 def write():
   m = {
    'version': 1,
